@@ -163,6 +163,10 @@ pub fn execute(h: &History, want: &str, rep: &mut Report) -> Option<Violation> {
     let mut step_pts_by_decade = [0u64; 7];
     let mut step_pts_tiny = 0u64;
     let mut pole_by_decade = [0u64; 7];
+    // the slowest pole among all times requested so far: which request is in effect (the 0.05 s dead band) is C14's
+    // clause, so C13's "settles" is only violated by an approach slower than every time that was ever asked for
+    let mut a_slowest: f64 = 0.0;
+    let mut env_slow: f64 = 0.0;
     let mut env: f64 = 0.0; // RC envelope of the error in the running segment
     let mut env_settled = false;
 
@@ -171,6 +175,7 @@ pub fn execute(h: &History, want: &str, rep: &mut Report) -> Option<Violation> {
             Op::SetTime(t) => {
                 call!(g.set_time(*t), i, None);
                 n_eval += 1;
+                a_slowest = a_slowest.max(eff(*t, fs64).a_hi);
                 let honoured = match cur {
                     None => Some(true),
                     Some(c) => {
@@ -320,11 +325,18 @@ pub fn execute(h: &History, want: &str, rep: &mut Report) -> Option<Violation> {
                             let a_env = 1.0 - 0.98 * (1.0 - c.a_hi);
                             if seg_n == 1 {
                                 env = e.abs();
+                                env_slow = e.abs();
                                 env_settled = false;
                             } else {
                                 env *= a_env;
+                                env_slow *= 1.0 - 0.98 * (1.0 - a_slowest.max(c.a_hi));
                             }
-                            if e.abs() > env * (1.0 + 1e-9) + tol {
+                            let tol_slow = (EPS2 * m_abs + 4.0e-45) / (1.0 - a_slowest.max(c.a_hi)) + carry;
+                            if e.abs() > env * (1.0 + 1e-9) + tol && !(e.abs() > env_slow * (1.0 + 1e-9) + tol_slow) {
+                                // slower than the time in effect by C14's dead-band rule, but not slower than another time
+                                // that was requested earlier: a question of which request is honoured, not of settling
+                                rep.count("glide.c13_settle_explained_by_an_earlier_request", 1);
+                            } else if e.abs() > env * (1.0 + 1e-9) + tol {
                                 fail!("C13", "does-not-settle", format!("input held at {:e}: {} samples into the hold the output is still {:e} away; converging at the rate of the time in effect ({} s) it would be within {:e} (+ resolution {:e})", hold_x, seg_n, e.abs(), c.t, env, tol), i, Some(k));
                             }
                             if !env_settled && env < res && seg_n > 1 {
